@@ -247,6 +247,9 @@ class History(c01.History):
             alt1 = dl.spec_spelling([c01.tok_from_json(j) for j in s["alt1"]])
             leaf_ann = Union[Shaped[np.ndarray, alt1], leaf_ann]
         sname = s.get("structure")
+        inner = s.get("inner")  # a structured PyTree as leaf type: PyTree[PyTree[<leaf>, inner], sname]; the whole tree is ONE leaf of the outer
+        if inner:
+            leaf_ann = PyTree[leaf_ann, inner]
         ann = PyTree[leaf_ann, sname] if sname else PyTree[leaf_ann]
         desc = gt.from_json(s["tree"])
         real = pt.build(desc, lambda p: np.zeros(p) if not isinstance(p, str) else p)
@@ -256,8 +259,34 @@ class History(c01.History):
         # ---- model
         from vf.models.ptcheck import model_pytree_check
 
-        allowed, newm, tent, new_struct = model_pytree_check(self.m, meanings, sname, desc)
         structs2 = dict(self.struct_strs)
+        if inner and desc[0] != "none":
+            # the inner check decides about the whole tree (binding `inner` to its structure); for the outer one the tree is a single leaf
+            allowed, newm, tent, new_inner = model_pytree_check(self.m, meanings, inner, desc)
+            new_struct = None
+            if sname and pt.leaves(desc):
+                # a structured PyTree inside a structured PyTree is documented as ambiguous for '?' axes and raises AnnotationError as
+                # soon as the (single) leaf is checked -- unless the outer structure name already rules the tree out.  Either way
+                # nothing stays bound, in particular not the inner name that was bound while looking for leaves.
+                allowed = {dl.FALSE} if (" " not in sname and sname in self.m.structs and self.m.structs[sname] != ("leaf",)) else {dl.ANNERR}
+                if " " in sname:
+                    allowed = {dl.FALSE, dl.ANNERR}
+                newm, tent = self.m, 1
+            elif allowed == {dl.TRUE}:
+                if new_inner:
+                    structs2[new_inner] = str(jtu.tree_structure(real))
+                if sname and " " not in sname:  # (a tree without any leaf: the inner check never reaches a leaf, no ambiguity arises)
+                    if sname in newm.structs:
+                        if newm.structs[sname] != ("leaf",):
+                            allowed, newm = {dl.FALSE}, self.m
+                    else:
+                        newm = newm.copy()
+                        newm.structs[sname] = ("leaf",)
+                        structs2[sname] = str(jtu.tree_structure(0))
+                elif sname:
+                    allowed, newm = {dl.TRUE, dl.FALSE, dl.ANNERR}, newm  # composite outer name over an empty tree: not modelled
+        else:
+            allowed, newm, tent, new_struct = model_pytree_check(self.m, meanings, sname, desc)
         if new_struct:
             structs2[new_struct] = str(jtu.tree_structure(real))
         if got not in allowed:
@@ -271,7 +300,7 @@ class History(c01.History):
         class O:
             tentative = tent
 
-        self._finish(s, got, O, f"PyTree[{spec!r},{sname!r}]", ["pytree", spec, sname, s["tree"], sorted(self._before.items())])
+        self._finish(s, got, O, f"PyTree[{'PyTree[' + repr(spec) + ',' + repr(inner) + ']' if inner else repr(spec)},{sname!r}]", ["pytree", spec, sname, inner, s["tree"], sorted(self._before.items())])
 
     def step_repeat(self, s):
         if self.last_passed is None:
@@ -357,8 +386,12 @@ def draw_step(data, hist: History):
             bad = base[:-1] + [base[-1] + 1] if base and base[-1] not in (1,) else base + [7, 7, 7]
             leaves = ([base] if prev is None else []) + [wide, bad if data.draw(st.integers(0, 3)) else wide]
             s["tree"] = gt.to_json(("tuple", [("leaf", l) for l in leaves]))
+        if sk in ("none", "name") and all(not isinstance(lf[1], str) for lf in pt.leaves(gt.from_json(s["tree"]))) and data.draw(st.integers(0, 4)) == 0:
+            # the leaf type is itself a structured PyTree (name used by this step only): it binds its name while the OUTER check is
+            # still looking for leaves; if the outer check then fails (its own structure name, a late leaf) that binding goes too
+            s["inner"] = f"Vi{len(hist.steps)}"
         first = next((lf[1] for lf in pt.leaves(gt.from_json(s["tree"])) if not isinstance(lf[1], str)), None)
-        if first and data.draw(st.integers(0, 3)) == 0:
+        if first and not s.get("inner") and data.draw(st.integers(0, 3)) == 0:
             s["alt1"] = [c01.tok_json(t) for t in [dl.Token("", "name", f"q{i}") for i in range(len(first) - 1)] + [dl.Token("", "int", 99)]]
         # a composite over bound names: half of the time build the matching composed tree instead
         if sk == "composite":
